@@ -105,6 +105,14 @@ func runC18(r *Report, tier string) {
 					okw = true // COSE_Sign: the per-signer slots
 				}
 			}
+			// sign-and-encode helpers build the message from a Headers
+			// parameter passed by value: its protected map IS the message's
+			// protected header (the algorithm injection lands there)
+			if fn.Signature.Recv() == nil && w.kind == "param" && w.param < len(fn.Params) && isNamed(fn.Params[w.param].Type(), cosePath, "Headers") {
+				if p := strings.Join(w.path, "/"); p == "Protected" || strings.HasPrefix(p, "Protected/[*]") {
+					okw = true
+				}
+			}
 			if !okw {
 				bad = append(bad, w)
 			}
